@@ -112,7 +112,10 @@ def run(tier="quick", seed=0, tag="C19/discovery#native"):
     n, f2 = mdns_records(tier, rnd, tag)
     cases += n
     failures += f2
-    return {"cases": cases, "distinct": cases, "failures": failures, "bound": "every prefix of a valid regular / encrypted advertisement, random bytes; three pairing situations; mDNS records with fuzzed TXT properties and address sets"}
+    n, f3 = mdns_waiter_schedules(tier, tag)
+    cases += n
+    failures += f3
+    return {"cases": cases, "distinct": cases, "failures": failures, "bound": "every prefix of a valid regular / encrypted advertisement, random bytes; three pairing situations; mDNS records with fuzzed TXT properties and address sets; mDNS waiter schedules: 1..3 waiters on one id, each waiting / timing out / cancelled before the record is processed"}
 
 
 def mdns_records(tier, rnd, tag):
@@ -160,4 +163,66 @@ def mdns_records(tier, rnd, tag):
         for key, attr in (("c#", "config_num"), ("s#", "state_num")):
             if key in low and int(low[key]) != getattr(svc, attr):
                 fail("mdns-number-not-taken-from-the-record", props=props, attr=attr)
+    return cases, failures
+
+
+def mdns_waiter_schedules(tier, tag):
+    """1..3 callers of the real ZeroconfController.async_find on one id (upper or lower case); each either keeps waiting,
+    times out early or is cancelled BEFORE the record is processed by the real _async_handle_loaded_service_info.  Every
+    caller still waiting must be completed with the discovery; the others fail with not-found / cancellation."""
+    import itertools
+    import socket
+    from unittest.mock import MagicMock
+
+    from zeroconf.asyncio import AsyncServiceInfo
+
+    from aiohomekit.characteristic_cache import CharacteristicCacheMemory
+    from aiohomekit.controller.ip.controller import IpController
+    from aiohomekit.exceptions import AccessoryNotFoundError
+
+    DEV = "0a:1b:2c:3d:4e:5f"
+    cases, failures, seen = 0, [], set()
+
+    def fail(what, **kw):
+        if what not in seen:
+            seen.add(what)
+            failures.append({"clause": f"{tag}.{what}", "scenario": {k: repr(v)[:300] for k, v in kw.items()}})
+
+    async def one(fates, upper):
+        c = IpController(char_cache=CharacteristicCacheMemory(), zeroconf_instance=MagicMock())
+        tasks = []
+        for i, fate in enumerate(fates):
+            ident = DEV.upper() if (upper and i % 2 == 0) else DEV
+            tasks.append(asyncio.ensure_future(c.async_find(ident, timeout=0.02 if fate == "timeout" else 5.0)))
+            await asyncio.sleep(0)
+        for t, fate in zip(tasks, fates):
+            if fate == "cancel":
+                t.cancel()
+        await asyncio.sleep(0.06)
+        info = AsyncServiceInfo("_hap._tcp.local.", "acc._hap._tcp.local.", addresses=[socket.inet_aton("192.168.1.20")], port=1234,
+                                properties={b"c#": b"3", b"id": DEV.upper().encode(), b"md": b"m", b"s#": b"11", b"ci": b"5", b"sf": b"0", b"ff": b"1"})
+        c._async_handle_loaded_service_info(info)
+        await asyncio.sleep(0.02)
+        for i, (t, fate) in enumerate(zip(tasks, fates)):
+            if fate == "wait":
+                if not t.done():
+                    fail("mdns-waiter-not-woken", fates=fates, waiter=i)
+                    t.cancel()
+                elif t.cancelled() or t.exception() is not None or t.result() is not c.discoveries.get(DEV):
+                    fail("mdns-waiter-not-completed-with-the-discovery", fates=fates, waiter=i)
+            elif fate == "timeout":
+                if not t.done() or t.cancelled() or not isinstance(t.exception(), AccessoryNotFoundError):
+                    fail("mdns-timeout-is-not-not-found", fates=fates, waiter=i)
+            elif not t.cancelled():
+                fail("mdns-cancelled-waiter-not-cancelled", fates=fates, waiter=i)
+        await asyncio.gather(*tasks, return_exceptions=True)
+
+    for n in (1, 2, 3):
+        for fates in itertools.product(("wait", "timeout", "cancel"), repeat=n):
+            for upper in ((False, True) if tier == "thorough" else (True,)):
+                cases += 1
+                try:
+                    asyncio.run(one(fates, upper))
+                except Exception as e:  # noqa: BLE001
+                    fail("mdns-schedule-raised", fates=fates, raised=e)
     return cases, failures
